@@ -421,6 +421,11 @@ pub fn gen_c04(rng: &mut Rng, tier: Tier) -> C04Plan {
         }
         if r < 8 {
             plan.steps.push(Step::Cleanup);
+            if rng.chance(1, 4) {
+                for _ in 0..2 + rng.usize(8) {
+                    plan.steps.push(Step::Cleanup); // many clean-ups in a row
+                }
+            }
             continue;
         }
         let first = i == 0 && !start_without_i;
